@@ -203,3 +203,41 @@ func vh_handle_event() {
 	}
 	vObserve("queued", len(s.nodeEvents.events)+len(s.schemaEvents.events))
 }
+
+// ---- C06 / C17: controlConn.close() hands the heartbeat goroutine an UNBUFFERED send on quit ----
+//
+// close() (Session.Close) sets the state to closing and then blocks in `c.quit <- struct{}{}` until
+// the heartbeat goroutine receives it. close() may arrive while a heartbeat request is in flight
+// (the stub of writeFrame is where the environment acts); whatever that request ends with, the
+// heartbeat goroutine must not return without having taken the send.
+var vCtlCloseArrived bool
+
+func vstubControlWriteFrameClose(c *controlConn, w frameBuilder) (frame, error) {
+	vHBCalls++
+	vAssume(vHBCalls <= vHBSteps)
+	if !vCtlCloseArrived && (vHBCalls == vHBSteps || vBool("close_arrives_during_this_heartbeat")) {
+		vCtlCloseArrived = true
+		c.state = controlConnClosing
+		vChanPush(c.quit, struct{}{}) // close() now blocks in the send until it is received
+	}
+	if vBool("write_fails") {
+		return nil, vErrIO
+	}
+	op, body := vHBFrameBody()
+	f := vFramerWith(&Conn{version: 4}, op, body)
+	return f.parseFrame()
+}
+
+func vh_control_close_rendezvous() {
+	cc := &controlConn{session: &Session{logger: vNopLogger{}}, quit: make(chan struct{})}
+	vHBCalls, vHBSteps, vHBReconnects, vCtlCloseArrived = 0, vBound("steps"), 0, false
+	if vBool("close_arrives_before_the_first_tick") {
+		vCtlCloseArrived = true
+		// heartBeat's own CAS comes first in real life (close only acts on a started control connection)
+	}
+	cc.heartBeat()
+	if vCtlCloseArrived && vHBCalls > 0 {
+		vAssert(len(cc.quit) == 0, "C06/control/heartbeat-takes-closes-rendezvous-send")
+	}
+	vObserve("calls", vHBCalls)
+}
